@@ -67,9 +67,13 @@ def _group(args):
             for term in (True, False):
                 # the wsgi.input object: one with readinto (BytesIO-like), one with only the PEP 3333 methods,
                 # one of the latter that also returns short reads
-                for sk in (("full", "pep3333", "short") if (term or not has_cl) else ("full", "pep3333")):
-                    r = mp.run_request(body, ct, mcl=mcl, maxmem=mm, maxparts=mpn, has_cl=has_cl, term=term, stream_kind=sk)
-                    runs.append({"op": "req", "api": "request", "mcl": -1 if mcl is None else mcl,
+                # every public entry point that takes the limits (the Request attributes, the parse_form_data function,
+                # a FormDataParser used once, and one that is re-used after its limit attributes were assigned)
+                variants = [("request", sk) for sk in (("full", "pep3333", "short") if (term or not has_cl) else ("full", "pep3333"))]
+                variants += [("parse_form_data", "full"), ("from_environ", "pep3333"), ("reused", "full")]
+                for entry, sk in variants:
+                    r = mp.run_request(body, ct, mcl=mcl, maxmem=mm, maxparts=mpn, has_cl=has_cl, term=term, stream_kind=sk, entry=entry)
+                    runs.append({"op": "req", "api": "request", "entry": entry, "mcl": -1 if mcl is None else mcl,
                                  "maxmem": -1 if mm is None else mm, "maxparts": -1 if mpn is None else mpn,
                                  "has_cl": has_cl, "term": term, "stream": sk, "consumed": r["consumed"], "res": r["res"],
                                  "exp": {"err": "skip", "consumed": 0, "nparts": 0}})
@@ -146,10 +150,10 @@ def run(ctx: Ctx):
         c = cfgs[r["t"]]
         case = {"wire": c["wire"], "bnd": c["bnd"], "ctype": c["ctype"], "api": ln["api"], "chunks": ln.get("chunks"),
                 "buffer_size": ln.get("buffer_size"), "plan": ln.get("plan"), "maxmem": ln["maxmem"], "maxparts": ln["maxparts"],
-                "mcl": ln.get("mcl", -1), "has_cl": ln.get("has_cl"), "term": ln.get("term"), "stream": ln.get("stream", "full")}
+                "mcl": ln.get("mcl", -1), "has_cl": ln.get("has_cl"), "term": ln.get("term"), "stream": ln.get("stream", "full"), "entry": ln.get("entry", "request")}
         key = f"{r['clause']}:{ln['api']}:{c['ctype']}"
         if ln["api"] == "request":
-            key += f":cl={int(bool(ln['has_cl']))}:term={int(bool(ln['term']))}"
+            key += f":cl={int(bool(ln['has_cl']))}:term={int(bool(ln['term']))}" + ("" if ln.get("entry", "request") == "request" else ":" + ln["entry"])
         ctx.violation(key, r["clause"], case, kind="c10")
 
 
@@ -171,9 +175,9 @@ def replay(ctx: Ctx, data):
         runs = c01._form_runs(w, b, [(case["buffer_size"], case["plan"] or None)], lim)
     else:
         r = mp.run_request(w, ct, mcl=un(case["mcl"]), maxmem=lim[0], maxparts=lim[1], has_cl=case["has_cl"], term=case["term"],
-                           stream_kind=case.get("stream", "full"))
+                           stream_kind=case.get("stream", "full"), entry=case.get("entry", "request"))
         runs = [{"op": "req", "api": "request", "mcl": case["mcl"], "maxmem": case["maxmem"], "maxparts": case["maxparts"],
-                 "has_cl": case["has_cl"], "term": case["term"], "stream": case.get("stream", "full"), "consumed": r["consumed"], "res": r["res"],
+                 "has_cl": case["has_cl"], "term": case["term"], "stream": case.get("stream", "full"), "entry": case.get("entry", "request"), "consumed": r["consumed"], "res": r["res"],
                  "exp": {"err": "skip", "consumed": 0, "nparts": 0}}]
     lines = [cfg]
     for i, r in enumerate(runs):
